@@ -4,7 +4,8 @@
 //	              components, output path lists of <= 2 (ordered) or 3
 //	              (multisets) paths of <= 2 components over {a, b, ., ..}),
 //	              each against trees / input roots taken round-robin from a
-//	              catalogue (the seed shifts the pairing)
+//	              catalogue (the seed shifts the pairing); VERIF_STRIDE=k
+//	              keeps all lists of <= 1 path and every k-th longer one
 //	TestTrees     every produced tree of depth <= 2 (3 for one shape) over
 //	              two names against a few fixed commands
 //	TestRandom    seeded random deeper cases (three names, depth <= 4,
@@ -95,16 +96,16 @@ func prodCatalogue() []*node {
 	leafDir := dirN("a", fileN(true, 1), "b", symN("../a"))
 	return []*node{
 		nil, // the command produces nothing
-		dirN("a", fileN(true, 1), "b", fileN(false, 2)),
-		dirN("a", dirN("a", fileN(false, 1), "b", fileN(true, 3)), "b", dirN("a", fileN(false, 1), "b", fileN(true, 3))),
+		dirN("a", fileS(true, 1, 1), "b", fileS(false, 2, 2)),
+		dirN("a", dirN("a", fileN(false, 1), "b", fileS(true, 3, 1)), "b", dirN("a", fileS(false, 1, 2), "b", fileN(true, 3))),
 		dirN("a", dirN("a", leafDir, "b", leafDir), "b", leafDir),
 		dirN("a", symN("b"), "b", dirN("a", fileN(false, 0))),
 		dirN("a", dirN("b", dirN()), "b", &node{kind: "fifo"}),
 		dirN("a", dirN("a", symN(".."), "b", &node{kind: "socket"}), "b", symN("/a/b")),
-		dirN("a", fileN(false, 2), "b", dirN("a", dirN("a", fileN(true, 0)), "b", dirN("a", fileN(true, 0)))),
+		dirN("a", fileN(false, 2), "b", dirN("a", dirN("a", fileS(true, 0, 1)), "b", dirN("a", fileS(true, 0, 2)))),
 		dirN("a", &node{kind: "absent"}, "b", &node{kind: "absent"}),
 		dirN("a", dirN("a", dirN("a", dirN("a", fileN(false, 1)))), "b", fileN(true, 1)),
-		dirN("b", dirN("a", fileN(true, 2), "b", dirN("b", symN("a/b")))),
+		dirN("b", dirN("a", fileS(true, 2, 1), "b", dirN("b", symN("a/b"))), "a", dirN("a", fileN(true, 3), "b", &node{kind: "hardlink", target: "a"})),
 		dirN("a", dirN("a", fileN(true, 1), "b", fileN(false, 1)), "b", dirN("a", fileN(false, 1), "b", fileN(true, 1))),
 	}
 }
@@ -119,7 +120,7 @@ func preCatalogue() []*node {
 		dirN("a", dirN("a", fileN(true, 1))),
 		dirN("a", dirN("b", dirN("a", fileN(false, 2)), "a", symN("b")), "b", dirN()),
 		dirN("b", dirN("b", fileN(false, 3), "a", dirN("b", fileN(true, 3)))),
-		dirN("a", fileN(false, 1)),  // in the way of a/...
+		dirN("a", fileN(false, 1)),        // in the way of a/...
 		dirN("b", symN("a"), "a", dirN()), // symlink in the way of b/...
 	}
 }
@@ -127,9 +128,21 @@ func preCatalogue() []*node {
 func pick(c *caseT, i int, seed int, prods, pres []*node) {
 	c.prod = prods[(i+seed)%len(prods)]
 	c.pre = pres[(i/len(prods)+i+2*seed)%len(pres)]
-	c.lazy = c.pre != nil && (i+seed)%2 == 0
+	c.native = (i/2+seed)%5 == 0
+	c.lazy = !c.native && c.pre != nil && (i+seed)%2 == 0
 	c.format = (i + seed) % 3
 	c.force = (i/3+seed)%4 == 0
+	c.setExec((i/5+i+seed)%4 == 0)
+}
+
+// setExec switches a case to executor mode, where the input root is always
+// merged from the CAS and forceUploadTreesAndDirectories is not per case.
+func (c *caseT) setExec(on bool) {
+	if on {
+		c.exec = true
+		c.force = false
+		c.lazy = !c.native && c.pre != nil
+	}
 }
 
 // ---------------------------------------------------------------------
@@ -137,6 +150,7 @@ func pick(c *caseT, i int, seed int, prods, pres []*node) {
 
 func TestCommands(t *testing.T) {
 	maxPaths := common.EnvInt("VERIF_MAXPATHS", 2)
+	stride := common.EnvInt("VERIF_STRIDE", 1) // >1: only every stride-th command with 2 or more paths
 	seed := int(common.Seed())
 	s := newSink()
 	wds := seqsUpTo(2)
@@ -168,14 +182,17 @@ func TestCommands(t *testing.T) {
 	n := 0
 	for _, wd := range wds {
 		for _, l := range lists {
+			n++
+			if stride > 1 && len(l) >= 2 && (n+seed)%stride != 0 {
+				continue
+			}
 			c := &caseT{gen: "commands", wd: wd, paths: l}
 			pick(c, n, seed, prods, pres)
 			s.run(c)
-			n++
 		}
 	}
 	s.close(map[string]any{"working_directories": len(wds), "path_lists": len(lists), "ordered_lists_up_to_2": ordered,
-		"exhaustive": true, "max_paths": maxPaths})
+		"exhaustive": stride <= 1, "max_paths": maxPaths, "stride_for_lists_of_2_or_more": stride})
 }
 
 // ---------------------------------------------------------------------
@@ -186,11 +203,11 @@ func TestCommands(t *testing.T) {
 // children are (per name) nothing, a file variant, a symlink, an empty
 // directory or (wide only) a directory with one file.
 func treeFamily(wide bool) []*node {
-	childOpts := []*node{nil, fileN(true, 1), fileN(false, 1), symN("a"), dirN()}
+	childOpts := []*node{nil, fileS(true, 1, 1), fileN(false, 1), symN("a"), dirN()}
 	if wide {
-		childOpts = append(childOpts, fileN(false, 2), dirN("a", fileN(false, 1)))
+		childOpts = append(childOpts, fileS(false, 2, 2), dirN("a", fileN(false, 1)))
 	}
-	topOpts := []*node{nil, {kind: "absent"}, fileN(true, 1), fileN(false, 1), fileN(false, 2), symN("../b"), {kind: "fifo"}}
+	topOpts := []*node{nil, {kind: "absent"}, fileS(true, 1, 2), fileN(false, 1), fileS(false, 2, 1), symN("../b"), {kind: "fifo"}}
 	for _, ca := range childOpts {
 		for _, cb := range childOpts {
 			d := dirN()
@@ -246,10 +263,12 @@ func TestTrees(t *testing.T) {
 			c := &caseT{gen: "trees", wd: cm.wd, paths: cm.paths, prod: tree}
 			c.format = (n + seed) % 3
 			c.force = (n+seed)%5 == 0
+			c.native = (n/3+seed)%4 == 0
 			if (n+seed)%4 == 0 {
 				c.pre = pres[(n/4+seed)%len(pres)]
-				c.lazy = c.pre != nil && (n/4)%2 == 0
+				c.lazy = !c.native && c.pre != nil && (n/4)%2 == 0
 			}
+			c.setExec((n/7+n+seed)%3 == 0)
 			s.run(c)
 			n++
 		}
@@ -269,7 +288,11 @@ func randTree(rng *rand.Rand, depth int, shared *[]*node) *node {
 		case r < 3:
 			// nothing
 		case r < 5:
-			d.children[name] = fileN(rng.Intn(2) == 0, rng.Intn(len(contents)))
+			d.children[name] = fileS(rng.Intn(2) == 0, rng.Intn(len(contents)), rng.Intn(3))
+			if rng.Intn(6) == 0 {
+				d.children["c"] = &node{kind: "hardlink", target: name}
+				return d
+			}
 		case r < 6:
 			d.children[name] = symN([]string{"a", "../b", "/c", "a/b", "..", "../../a"}[rng.Intn(6)])
 		case r < 7 && depth > 0:
@@ -395,12 +418,14 @@ func TestRandom(t *testing.T) {
 		if len(c.paths) > 0 && rng.Intn(5) == 0 {
 			c.paths = append(c.paths, c.paths[rng.Intn(len(c.paths))]) // duplicate
 		}
+		c.native = rng.Intn(4) == 0
 		if rng.Intn(3) == 0 {
 			c.pre = pres[rng.Intn(len(pres))]
-			c.lazy = c.pre != nil && rng.Intn(2) == 0
+			c.lazy = !c.native && c.pre != nil && rng.Intn(2) == 0
 		}
 		c.format = rng.Intn(3)
 		c.force = rng.Intn(4) == 0
+		c.setExec(rng.Intn(3) == 0)
 		s.run(c)
 	}
 	s.close(map[string]any{"exhaustive": false})
@@ -418,6 +443,16 @@ func TestProbe(t *testing.T) {
 			prod: dirN("a", dirN("p", shared, "q", shared, "l", symN("../b")), "b", fileN(true, 3), "l", symN("a"), "s", &node{kind: "fifo"})},
 		{gen: "probe", wd: []string{"a"}, paths: [][]string{{"a"}, {"b", "x"}}, lazy: true, format: 2,
 			pre: dirN("a", dirN("a", dirN("f", fileN(true, 1)), "l", symN("a")))},
+		{gen: "probe", exec: true, wd: []string{"a"}, paths: [][]string{{"a"}, {"b", "x"}, {"..", "b"}}, format: 2,
+			pre:  dirN("a", dirN("a", dirN("f", fileN(true, 1)), "l", symN("a"))),
+			prod: dirN("a", dirN("b", dirN("x", shared)), "b", fileS(true, 3, 1))},
+		{gen: "probe", exec: true, native: true, wd: []string{"a"}, paths: [][]string{{"a"}, {"b", "x"}, {"..", "b"}},
+			pre:  dirN("a", dirN("a", dirN("f", fileN(true, 1)), "l", symN("a"))),
+			prod: dirN("a", dirN("b", dirN("x", shared)), "b", fileS(true, 3, 1))},
+		{gen: "probe", exec: true, wd: []string{"a"}, paths: [][]string{{"a"}, {"..", "..", "b"}},
+			pre: dirN("a", dirN("a", dirN("f", fileN(true, 1))))},
+		{gen: "probe", exec: true, native: true, wd: []string{"..", "a"}, paths: [][]string{{"a"}},
+			pre: dirN("a", dirN("a", dirN("f", fileN(true, 1))))},
 	}
 	for _, c := range cases {
 		s.run(c)
